@@ -35,7 +35,10 @@ func (in *Interp) vfCall(fr *frame, fn *ssa.Function, args []Value, pos token.Po
 	case "Doc":
 		// Doc(id, keys, maxLen, tags, depth) bson.D
 		l := &Lazy{ID: str(args[0]), Keys: splitCSV(str(args[1])), MaxLen: in.cint(args[2]), Tags: uint32(in.cint(args[3])), Depth: in.cint(args[4]) + 1}
+		l.topDoc = true
 		return in.mkDoc(l)
+	case "Child":
+		return BVc(32, uint64(uint32(in.cint(args[0]))<<16))
 	case "Assume":
 		in.assume(args[0].(*Term))
 		return nil
